@@ -22,9 +22,9 @@ Fixpoint esigned (e : expr) : bool :=
   | EReg _ _ s => s
   | EVar _ _ s => s
   | EBin ORsh a _ => esigned a
-  | EBin OAnd _ _ => false                                   (* AndExpression is declared unsigned *)
-  | EBin OAdd (EReg _ true _) (EConst v) => v <? 0           (* Register + int is a Sum: sign of the constant *)
-  | EBin OSub (EReg _ true _) (EConst v) => 0 <? v
+  | EBin OAnd a b => esigned a && esigned b                   (* AndExpression: negative only if both are *)
+  | EBin OAdd (EReg _ true s) (EConst v) => s || (v <? 0)     (* Register + int is a Sum: sign of the constant *)
+  | EBin OSub (EReg _ true s) (EConst v) => s || (0 <? v)
   | EBin _ a b => esigned a || esigned b
   | ENeg _ => true
   | EAbs _ => false
